@@ -230,7 +230,7 @@ def k_rep(include_big=False):
 
 
 def k_seq():
-    """14 adversarial frames (>= 2 per kind) for sequence exploration."""
+    """15 adversarial frames (>= 2 per kind) for sequence exploration."""
     M = spec_table.BY_NAME
     out = []
 
@@ -253,6 +253,7 @@ def k_seq():
     add('b:hb', refcodec.enc_body_frame(refcodec.HEARTBEAT, 1))
     add('b:amqp', refcodec.enc_body_frame(b'AMQP\x00\x00\x09\x01', 7))
     add('b:hdr', refcodec.enc_body_frame(b'\x01\x00\x01\x00\x00\x00\x04', 1))
+    add('b:empty', refcodec.enc_body_frame(b'', 9))
     add('hb:0', refcodec.enc_heartbeat_frame(0))
     add('hb:5', refcodec.enc_heartbeat_frame(5))
     out.append(('p:091', refcodec.enc_protocol_header(0, 9, 1)))
